@@ -92,8 +92,10 @@ fn tri<T: Sc>(t: &mut Toks, cx: &mut Ctx, to_q: Option<fn(&T) -> Option<Q>>) -> 
             if inband { let mut dd = d.clone(); dd[i][j] = s; let zd = dense(&z.subdiagonal().vec, &z.maindiagonal().vec, &z.superdiagonal().vec); cx.check((0..n).all(|a| (0..n).all(|b| zd[a][b].same(&dd[a][b]))), "indexed write changed something else than the addressed entry"); } }
         Err(_) => cx.check(!inband, "in-band indexed write rejected") }
     if let Ok(z) = &extra[1] { cx.check(i >= 1 && z.size() == i && (0..i).all(|a| z.maindiagonal()[a].same(&(s + T::one()))) && (0..i - 1).all(|a| z.subdiagonal()[a].same(&s) && z.superdiagonal()[a].same(&(s - T::one()))), "with_elements"); } else { cx.check(i == 0, "with_elements panicked for a positive size"); }
-    if let Ok(z) = &extra[2] { cx.check(j >= 1 && z.size() == j && z.maindiagonal().vec.iter().all(|a| *a == T::zero()) && z.subdiagonal().size() == j - 1, "new"); } else { cx.check(j == 0, "new panicked for a positive size"); }
-    if let Ok(z) = &extra[3] { cx.check(i >= 1 && z.size() == i && z.maindiagonal().size() == i && z.subdiagonal().size() == i - 1 && z.superdiagonal().size() == i - 1, "resize"); } else { cx.check(i == 0, "resize panicked for a positive size"); }
+    if let Ok(z) = &extra[2] { cx.check(j >= 1 && z.size() == j && z.maindiagonal().vec.iter().all(|a| *a == T::zero()) && z.subdiagonal().size() == j - 1 && z.superdiagonal().size() == j - 1
+            && z.subdiagonal().vec.iter().chain(z.superdiagonal().vec.iter()).all(|a| *a == T::zero()), "new(n) is not the zero matrix of order n"); } else { cx.check(j == 0, "new panicked for a positive size"); }
+    if let Ok(z) = &extra[3] { cx.check(i >= 1 && z.size() == i && z.maindiagonal().size() == i && z.subdiagonal().size() == i - 1 && z.superdiagonal().size() == i - 1
+            && z.subdiagonal().vec.iter().chain(z.maindiagonal().vec.iter()).chain(z.superdiagonal().vec.iter()).all(|a| *a == T::zero()), "resize(n) is not the zero matrix of order n"); } else { cx.check(i == 0, "resize panicked for a positive size"); }
     if let (Ok(z), Ok(t2)) = (&extra[4], &tr) { cx.check(same_tri(z, t2), "transpose_in_place differs from transpose"); }
     if let Ok(z) = &extra[5] { cx.check(same_tri(z, &tm), "with_vectors differs from with_vecs"); }
     cx.check(same_tri(&tm, &snap), "a by-reference call mutated the matrix");
